@@ -118,6 +118,9 @@ Proof.
     destruct (q_insert cfg q s_checksum txt) eqn:E; cbn [fst]; [eapply q_insert_inv; eassumption|exact HQ].
   - exact HQ.
   - exact HQ.
+  - destruct (q_insert cfg q _ v) eqn:E; cbn [fst]; [eapply q_insert_inv; eassumption|exact HQ].
+  - exact HQ.
+  - cbn [fst]. apply q_remove_inv. exact HQ.
 Qed.
 Theorem qxrun_inv ops : forall q, QInv cfg q -> QInv cfg (fst (qxrun cfg q ops)).
 Proof.
@@ -226,6 +229,7 @@ Hypothesis Hksp : key_special_ascii cfg = true.
 Hypothesis Hcap : cap_saturating cfg = true.
 Hypothesis Hck : valid_key cfg s_checksum = true.
 Hypothesis Hrp : valid_key cfg s_repo = true.
+Hypothesis Htk : forallb (valid_key cfg) (typed_keys cfg) = true.
 
 Lemma found_nth q k m i : QInv cfg q -> check_key cfg k = Ok m -> search cfg q m = Found i -> exists kv, nth_error q i = Some kv.
 Proof.
@@ -239,7 +243,8 @@ Lemma insert_valid_ok q k v : valid_key cfg k = true -> exists q', q_insert cfg 
 Proof. intros Hv. unfold q_insert, check_key. rewrite Hv. cbn [bind]. destruct (search cfg q _); eexists; reflexivity. Qed.
 (* Qualifiers / Entry / typed accessors: a panic is possible only for Index / IndexMut of an absent (or invalid) key *)
 Theorem qxstep_panics_only_when_documented q o : QInv cfg q -> snd (qxstep cfg q o) = XoPanic ->
-  exists k, (o = QIdx k \/ exists v, o = QIdxSet k v) /\ q_get cfg q k = None.
+  (exists k, (o = QIdx k \/ exists v, o = QIdxSet k v) /\ q_get cfg q k = None)
+  \/ (exists i v, o = QTKIns i v /\ (length (typed_keys cfg) <= i)%nat).     (* an index that names no declared typed qualifier: not expressible through the API *)
 Proof.
   intros HQ. destruct o; cbn [qxstep].
   - destruct (q_insert cfg q k v); discriminate.
@@ -247,8 +252,8 @@ Proof.
   - discriminate.
   - destruct (q_get cfg q k); discriminate.
   - discriminate.
-  - destruct (q_get cfg q k) eqn:E; [discriminate|]. intros _. exists k. split; [left; reflexivity|exact E].
-  - destruct (q_get cfg q k) eqn:E; [discriminate|]. intros _. exists k. split; [right; eexists; reflexivity|exact E].
+  - destruct (q_get cfg q k) eqn:E; [discriminate|]. intros _. left. exists k. split; [left; reflexivity|exact E].
+  - destruct (q_get cfg q k) eqn:E; [discriminate|]. intros _. left. exists k. split; [right; eexists; reflexivity|exact E].
   - discriminate.
   - discriminate.
   - discriminate.
@@ -275,6 +280,13 @@ Proof.
   - discriminate.
   - rewrite cap_ok. destruct (cs_to_text (crun cfg ops)) as [txt|]; [|discriminate]. destruct (insert_valid_ok q s_checksum txt Hck) as [q' ->]. discriminate.
   - destruct (q_get cfg q s_checksum) as [v|]; [|discriminate]. destruct (cs_try_from cfg v); discriminate.
+  - discriminate.
+  - (* insert_typed for a declared key: panics only if the key is invalid or not declared (index out of the list) *)
+    destruct (Nat.ltb_spec i (length (typed_keys cfg))) as [Hlt|Hge].
+    + assert (Hv : valid_key cfg (nth i (typed_keys cfg) []) = true) by (rewrite forallb_forall in Htk; apply Htk; apply nth_In; exact Hlt).
+      destruct (insert_valid_ok q _ v Hv) as [q' ->]. discriminate.
+    + intros _. right. exists i, v. split; [reflexivity|exact Hge].
+  - discriminate.
   - discriminate.
 Qed.
 (* GenericPurlBuilder: no call panics *)
